@@ -172,7 +172,13 @@ func c15RL(v [c15Dims]int64, nilWhenEmpty bool) corev1.ResourceList {
 	l := corev1.ResourceList{}
 	for k, x := range v {
 		if x != c15Absent {
-			l[c15DimNames[k]] = *resource.NewQuantity(x, resource.DecimalSI)
+			// amounts are EXACT milli-units on both sides of the harness/model boundary (cpu "1500m", memory "1.5Gi" are
+			// not whole units; Quantity.Value() would round them up)
+			f := resource.DecimalSI
+			if k == 1 {
+				f = resource.BinarySI
+			}
+			l[c15DimNames[k]] = *resource.NewMilliQuantity(x, f)
 		}
 	}
 	return l
@@ -332,7 +338,10 @@ func c15ReadRL(l corev1.ResourceList, bad *string) [c15Dims]int64 {
 		found := false
 		for k, dn := range c15DimNames {
 			if dn == key {
-				v[k] = q.Value()
+				v[k] = q.MilliValue() // exact: no generated amount is finer than one milli-unit
+				if resource.NewMilliQuantity(v[k], q.Format).Cmp(q) != 0 {
+					*bad = "amount of " + string(key) + " is not a whole number of milli-units"
+				}
 				found = true
 			}
 		}
@@ -602,6 +611,7 @@ type c15Gen struct {
 	big      bool // min amounts of the quota being generated are drawn from the larger set (parents)
 	maxNames int
 	deep     bool // deep stream: deeper trees, fuller parents
+	memGi    bool // memory amounts are binary-suffix fractions ("1.5Gi") instead of small decimals
 }
 
 func (g *c15Gen) existing() []int {
@@ -613,7 +623,29 @@ func (g *c15Gen) existing() []int {
 	return ks
 }
 
-func (g *c15Gen) amount(max bool) int64 {
+const c15QuarterGiB = int64(1) << 28
+
+// amount: a whole amount w from the small sets below, turned into exact milli-units: w units plus, in 1/3 of the draws,
+// a fractional part (1m, 200m, 500m, 501m, 900m, 999m); in memGi histories the memory dimension uses binary-suffix
+// amounts instead (w quarter-GiB: 6 -> "1.5Gi"), sometimes plus 1 milli-byte / half a byte / 1 byte / 1Ki.
+func (g *c15Gen) amount(k int, max bool) int64 {
+	w := g.amountWhole(max)
+	r := g.r
+	if k == 1 && g.memGi {
+		v := w * c15QuarterGiB * 1000
+		if r.Chance(1, 4) {
+			v += r.Pick([]int64{1, 500, 1000, 1024 * 1000})
+		}
+		return v
+	}
+	v := w * 1000
+	if r.Chance(1, 3) {
+		v += r.Pick([]int64{1, 200, 500, 501, 900, 999})
+	}
+	return v
+}
+
+func (g *c15Gen) amountWhole(max bool) int64 {
 	r := g.r
 	if g.deep {
 		switch {
@@ -641,15 +673,23 @@ func (g *c15Gen) vectors() (mn, mx [c15Dims]int64) {
 			in = !in // key-set disagreement
 		}
 		if in {
-			mx[k] = g.amount(true)
+			mx[k] = g.amount(k, true)
 			if !r.Chance(1, 6) {
-				mn[k] = g.amount(false)
+				mn[k] = g.amount(k, false)
 			}
 		} else if r.Chance(1, 30) {
-			mn[k] = g.amount(false) // min key without max key
+			mn[k] = g.amount(k, false) // min key without max key
 		}
-		if r.Chance(1, 40) && mx[k] != c15Absent {
-			mn[k] = mx[k] + int64(r.Range(1, 3)) // min > max
+		if mx[k] != c15Absent && mx[k] >= 0 {
+			switch {
+			case r.Chance(1, 40):
+				mn[k] = mx[k] + r.Pick([]int64{1, 1, 300, 1000, 2000}) // min > max, down to one milli-unit past
+			case r.Chance(1, 40):
+				mx[k] = mx[k]/1000*1000 + 200 // min above max inside the same whole unit (equal ceilings): x.2 vs x.5
+				mn[k] = mx[k] + 300
+			case r.Chance(1, 40):
+				mn[k] = mx[k] // min = max exactly
+			}
 		}
 		if r.Chance(1, 60) {
 			if r.Bool() {
@@ -660,6 +700,47 @@ func (g *c15Gen) vectors() (mn, mx [c15Dims]int64) {
 		}
 	}
 	return
+}
+
+// aimMin moves one min of the request onto a boundary of the min-sum checks, in exact milli-units: the sum of the
+// recorded children's mins minus {0, 1m, 300m} (the children must still fit: 0 fits, the others do not, and 300m
+// below stays inside the same whole unit as often as not), or the room the siblings leave under the parent's min plus
+// {0, 1m, 300m}.  max is raised when needed so that the min/max check does not mask the min-sum check.
+func (g *c15Gen) aimMin(sp *c15Spec) {
+	r := g.r
+	k := r.Intn(c15Dims)
+	if sp.mx[k] == c15Absent || sp.mx[k] < 0 {
+		return
+	}
+	var kids, sibs int64
+	for _, n := range g.existing() {
+		c := g.store[n]
+		if n == sp.name {
+			continue
+		}
+		if c.parent == sp.name {
+			kids += c15Val(c.mn[k])
+		}
+		if c.parent == sp.parent {
+			sibs += c15Val(c.mn[k])
+		}
+	}
+	d := r.Pick([]int64{0, 0, 1, 300})
+	p := g.store[sp.parent]
+	switch {
+	case kids > 0 && r.Bool():
+		if kids-d < 0 {
+			return
+		}
+		sp.mn[k] = kids - d
+	case p != nil && p.mn[k] != c15Absent && p.mn[k]-sibs >= 0:
+		sp.mn[k] = p.mn[k] - sibs + d
+	default:
+		return
+	}
+	if sp.mn[k] > sp.mx[k] {
+		sp.mx[k] = sp.mn[k]
+	}
 }
 
 func (g *c15Gen) pickParent(self int) int {
@@ -728,6 +809,9 @@ func (g *c15Gen) fresh(name int) *c15Spec {
 	}
 	g.big = sp.isParent && !r.Chance(1, 5)
 	sp.mn, sp.mx = g.vectors()
+	if r.Chance(1, 6) {
+		g.aimMin(sp)
+	}
 	sp.ns = g.nsList()
 	if g.trees {
 		if p, ok := g.store[sp.parent]; ok && !r.Chance(1, 8) {
@@ -763,20 +847,23 @@ func (g *c15Gen) mutate(old *c15Spec) *c15Spec {
 		case 4, 5:
 			k := r.Intn(c15Dims)
 			if sp.mx[k] != c15Absent || r.Chance(1, 6) {
-				sp.mn[k] = g.amount(false)
+				sp.mn[k] = g.amount(k, false)
 				if r.Chance(1, 5) {
 					sp.mn[k] = c15Absent
+				}
+				if sp.mx[k] != c15Absent && sp.mx[k] >= 0 && r.Chance(1, 8) {
+					sp.mn[k] = sp.mx[k] + r.Pick([]int64{0, 1, 1, 300}) // at / just past max (fractional boundary)
 				}
 			}
 		case 6:
 			k := r.Intn(c15Dims)
 			switch {
 			case sp.mx[k] == c15Absent:
-				sp.mx[k] = g.amount(true)
+				sp.mx[k] = g.amount(k, true)
 			case r.Chance(1, 3):
 				sp.mx[k] = c15Absent
 			default:
-				sp.mx[k] = g.amount(true)
+				sp.mx[k] = g.amount(k, true)
 			}
 		case 7:
 			sp.ns = g.nsList()
@@ -792,6 +879,9 @@ func (g *c15Gen) mutate(old *c15Spec) *c15Spec {
 				sp.treeRoot = !sp.treeRoot
 			}
 		}
+	}
+	if r.Chance(1, 5) {
+		g.aimMin(&sp)
 	}
 	return &sp
 }
@@ -915,6 +1005,7 @@ func c15History(h *vHarness, r *vRand, deep bool) {
 		}
 		g.trees = r.Chance(1, 4)
 		g.flags = r.Chance(1, 8)
+		g.memGi = r.Chance(1, 4)
 		g.maxNames = r.Range(2, 5)
 		rp := c15Repr{rootAsEmptyLabel: r.Bool(), emptyListAsNil: r.Bool()}
 		steps := r.Range(4, 16)
@@ -1076,6 +1167,26 @@ func c15History(h *vHarness, r *vRand, deep bool) {
 				}
 				panicked = h.Guard(func() { err = qt.ValidDeleteQuota(obj) })
 			}
+			if sp != nil { // amount classes of the request (exact milli-units vs. what a whole-unit rounding would see)
+				ceil := func(x int64) int64 { return (x + 999) / 1000 }
+				for k := 0; k < c15Dims; k++ {
+					a, b := sp.mn[k], sp.mx[k]
+					if a == c15Absent || b == c15Absent || a < 0 || b < 0 {
+						continue
+					}
+					switch {
+					case a > b && ceil(a) == ceil(b):
+						h.Tag("amount:min-over-max-same-ceiling")
+					case a == b+1:
+						h.Tag("amount:min-one-milli-past-max")
+					case a == b:
+						h.Tag("amount:min-equals-max")
+					}
+					if a%1000 != 0 || b%1000 != 0 {
+						h.Tag("amount:fractional")
+					}
+				}
+			}
 			if panicked {
 				h.Obs("panic")
 				h.Fail("C15:panic", "request %d (%s) panicked", st, kind)
@@ -1201,7 +1312,7 @@ func TestVerifC15RootAdd(t *testing.T) {
 		qt := NewQuotaTopology(cl)
 		store := map[int]*c15Spec{}
 		mk := func(name, parent int, isParent bool, mn int64) *c15Spec {
-			return &c15Spec{name: name, parent: parent, isParent: isParent, mn: [c15Dims]int64{mn, c15Absent, c15Absent}, mx: [c15Dims]int64{20, c15Absent, c15Absent}}
+			return &c15Spec{name: name, parent: parent, isParent: isParent, mn: [c15Dims]int64{mn * 1000, c15Absent, c15Absent}, mx: [c15Dims]int64{20000, c15Absent, c15Absent}}
 		}
 		var plan []*c15Spec  // adds; name 0 = the root-named object
 		pre := r.Range(0, 3) // quotas hanging off the root before the root object is created
@@ -1223,7 +1334,7 @@ func TestVerifC15RootAdd(t *testing.T) {
 				root.parent = 3
 			}
 		case 2:
-			root.mx = [c15Dims]int64{20, c15Absent, c15Absent}
+			root.mx = [c15Dims]int64{20000, c15Absent, c15Absent}
 		}
 		plan = append(plan, root)
 		for i := 0; i < r.Range(0, 2); i++ {
@@ -1296,12 +1407,12 @@ func TestVerifC15RootAdd(t *testing.T) {
 
 // ---- exhaustive small-scope stream (DESIGN §4 C15 R) ----
 //
-// Request alphabet (75): for each of 3 names {3,4,5}: create and update with is-parent in {0,1} x cpu-min in {2,6}
-// x parent in {root, the two other names} (cpu-max 8), and delete.  ALL sequences of <= 4 requests (quick tier: <= 3)
+// Request alphabet (111): for each of 3 names {3,4,5}: create and update with is-parent in {0,1} x cpu-min in {1100m,2250m,2750m}
+// x parent in {root, the two other names} (cpu-max 8500m), and delete.  ALL sequences of <= 4 requests (quick tier: <= 3)
 // are covered: a request that is rejected, or accepted without changing the recorded topology, leaves the state as it
 // was (that is itself checked), so every sequence containing it behaves like the sequence without it; only
 // accepted, state-changing requests are extended.  One case = one committed prefix (<= 3 requests, each accepted and
-// state-changing) followed by all 75 requests, each evaluated on the state after the prefix (`try`: the real
+// state-changing) followed by all 111 requests, each evaluated on the state after the prefix (`try`: the real
 // topology is rebuilt from the prefix before every request; the model evaluates without committing).
 type c15Req struct {
 	kind string
@@ -1313,12 +1424,14 @@ func c15Alphabet() []c15Req {
 	names := []int{3, 4, 5}
 	for _, n := range names {
 		for _, ip := range []bool{false, true} {
-			for _, mn := range []int64{2, 6} {
+			// milli-cpu; 1100+1100 fits under 2250 and 2750, 1100+2250 does not fit under 2750; 2750 does not fit under
+			// 2250 although both round up to 3 whole units (child under parent, and parent lowered under its child)
+			for _, mn := range []int64{1100, 2250, 2750} {
 				for _, p := range []int{0, 3, 4, 5} {
 					if p == n {
 						continue
 					}
-					sp := &c15Spec{name: n, parent: p, isParent: ip, mn: [c15Dims]int64{mn, c15Absent, c15Absent}, mx: [c15Dims]int64{8, c15Absent, c15Absent}}
+					sp := &c15Spec{name: n, parent: p, isParent: ip, mn: [c15Dims]int64{mn, c15Absent, c15Absent}, mx: [c15Dims]int64{8500, c15Absent, c15Absent}}
 					out = append(out, c15Req{"add", sp}, c15Req{"upd", sp})
 				}
 			}
@@ -1477,6 +1590,82 @@ func TestVerifC15Exhaustive(t *testing.T) {
 		}
 	}
 	rec(nil)
-	h.Close(fmt.Sprintf("exhaustive: every sequence of <= %d requests over the 75-request alphabet (3 names x {create,update} x 2 is-parent x 2 cpu-min x 3 parents, + delete); "+
-		"one case = committed prefix of accepted state-changing requests + all 75 next requests; non-trivial = non-empty prefix", maxPrefix+1))
+	h.Close(fmt.Sprintf("exhaustive: every sequence of <= %d requests over the 111-request alphabet (3 names x {create,update} x 2 is-parent x 3 fractional cpu-min x 3 parents, + delete); "+
+		"one case = committed prefix of accepted state-changing requests + all 111 next requests; non-trivial = non-empty prefix", maxPrefix+1))
+}
+
+// ---- informer-echo exhibit (outside the property's scope: admission requests only) ----
+//
+// The webhook updates its recorded topology twice for every accepted request: at admission (Valid*Quota) and again
+// when the informer delivers the object (OnQuotaAdd / OnQuotaUpdate / OnQuotaDelete, which overwrite without any check).
+// An echo that arrives after a LATER admission re-installs stale data.  Two fixed scenarios; the oracle is c15WF on the
+// dump after all admissions and echoes.  Off unless VERIF_C15_ECHO=1 (suspected defect, reported to main; not modelled).
+func TestVerifC15Echo(t *testing.T) {
+	h := vOpen("C15")
+	if h == nil {
+		t.Skip("VERIF_OUT not set")
+	}
+	n := 2
+	if os.Getenv("VERIF_C15_ECHO") != "1" {
+		n = 0
+	}
+	mk := func(name, parent int, isParent bool, mn int64, ns ...int) *c15Spec {
+		return &c15Spec{name: name, parent: parent, isParent: isParent, ns: ns, mn: [c15Dims]int64{mn * 1000, c15Absent, c15Absent}, mx: [c15Dims]int64{20000, c15Absent, c15Absent}}
+	}
+	for idx := 0; idx < n; idx++ {
+		if h.Begin(idx) == nil {
+			continue
+		}
+		qt := NewQuotaTopology(&c15Client{})
+		store := map[int]*c15Spec{}
+		admit := func(kind string, sp *c15Spec) bool {
+			var err error
+			old := store[sp.name]
+			switch kind {
+			case "add":
+				err = qt.ValidAddQuota(c15Object(sp))
+			case "upd":
+				err = qt.ValidUpdateQuota(c15Object(old), c15Object(sp))
+			}
+			h.Op("%s", c15OpLine(kind, sp, nil))
+			h.Obs("admit %s %d -> %d", kind, sp.name, vB(err == nil))
+			if err == nil {
+				store[sp.name] = sp
+			}
+			return err == nil
+		}
+		switch idx {
+		case 0: // namespace bound to two quotas
+			a0, a1 := mk(3, 0, false, 1, 1), mk(3, 0, false, 1)
+			admit("add", a0)
+			qt.OnQuotaAdd(c15Object(a0))
+			admit("upd", a1)                    // q3 releases ns1                     (echo delayed)
+			admit("add", mk(4, 0, false, 1, 1)) // q4 binds ns1: accepted, ns1 is free
+			h.Op("echo-upd 3")
+			qt.OnQuotaUpdate(c15Object(a0), c15Object(a1)) // late echo of the update: deletes ns1 -> q4's binding
+			admit("add", mk(5, 0, false, 1, 1))            // q5 binds ns1 too: accepted
+		case 1: // children's mins exceed the parent's min
+			p, c6, c2 := mk(3, 0, true, 8), mk(4, 3, false, 6), mk(4, 3, false, 2)
+			admit("add", p)
+			admit("add", c6)
+			admit("upd", c2) // q4 min 6 -> 2 (echo delayed)
+			c6b := *c6
+			admit("upd", &c6b) // q4 min 2 -> 6 again: accepted (6 <= 8)
+			h.Op("echo-upd 4")
+			qt.OnQuotaUpdate(c15Object(c6), c15Object(c2))   // late echo re-installs min 2
+			admit("add", mk(5, 3, false, 6))                 // q5 min 6: accepted against the stale 2 (2+6 <= 8), really 6+6 > 8
+			qt.OnQuotaUpdate(c15Object(c2), c15Object(&c6b)) // echo of the second update: min 6
+			qt.OnQuotaAdd(c15Object(store[5]))
+		}
+		after := c15Snapshot(qt)
+		for _, l := range after.lines() {
+			h.Obs("%s", l)
+		}
+		if fp, what := c15WF(after, store, true); fp != "" {
+			h.Fail("C15:informer-echo-race", "%s: %s", fp, what)
+		}
+		h.Nontrivial()
+		h.End()
+	}
+	h.Close("informer-echo exhibit (VERIF_C15_ECHO=1 only): two fixed interleavings of admissions and late informer events")
 }
